@@ -9,6 +9,7 @@ from ..common import VERIF
 
 def run(chk, quick, rnd):
     part_des(chk, quick, rnd)
+    part_blowfish(chk, quick, rnd)
     part_bcrypt(chk, quick, rnd)
 
 
@@ -109,6 +110,103 @@ def part_des(chk, quick, rnd):
     chk.traces += len(cases)
 
 
+def pi_words(nwords):
+    """the first nwords 32-bit words of the fractional part of pi (Machin's formula on big integers) - Blowfish's initial tables"""
+    bits = 32 * nwords + 64
+    one = 1 << bits
+
+    def arctan_inv(x):
+        total = term = one // x
+        x2 = x * x
+        n = 1
+        while term:
+            term //= x2
+            n += 2
+            total += (term // n) * (-1 if (n // 2) % 2 else 1)
+        return total
+    frac = 4 * (4 * arctan_inv(5) - arctan_inv(239)) - 3 * one
+    return [(frac >> (bits - 32 * (k + 1))) & 0xFFFFFFFF for k in range(nwords)]
+
+
+BC64 = "./ABCDEFGHIJKLMNOPQRSTUVWXYZabcdefghijklmnopqrstuvwxyz0123456789"
+
+
+def bc64enc(b):
+    out, v, bits = [], 0, 0
+    for x in b:
+        v = (v << 8) | x
+        bits += 8
+        while bits >= 6:
+            bits -= 6
+            out.append(BC64[(v >> bits) & 63])
+    if bits:
+        out.append(BC64[(v << (6 - bits)) & 63])
+    return "".join(out)
+
+
+def bc64dec(s):
+    v, bits, out = 0, 0, bytearray()
+    for ch in s:
+        v = (v << 6) | BC64.index(ch)
+        bits += 6
+        if bits >= 8:
+            bits -= 8
+            out.append((v >> bits) & 0xFF)
+    return bytes(out)
+
+
+def part_blowfish(chk, quick, rnd):
+    """Blowfish.tla evaluated by TLC: plain Blowfish blocks and whole bcrypt cores (the tables come from pi itself)"""
+    from passlib.crypto._blowfish import raw_bcrypt
+    from passlib.crypto._blowfish.base import BlowfishEngine
+    import bcrypt as cbcrypt
+    ws = pi_words(18 + 1024)
+    cases = [dict(kind="encipher", key=[0] * 8, block=[0] * 8), dict(kind="encipher", key=[255] * 8, block=[255] * 8)]
+    for _ in range(2 if quick else 12):
+        cases.append(dict(kind="encipher", key=[rnd.randrange(256) for _ in range(rnd.choice([1, 8, 16, 56, 72]))], block=[rnd.randrange(256) for _ in range(8)]))
+    shapes = [(4, 0), (4, 72)] if quick else [(4, 0), (4, 1), (4, 8), (4, 55), (4, 71), (4, 72), (4, 73), (4, 100), (5, 17), (5, 72), (6, 9)]
+    meta = {}
+    for cost, ln in shapes:
+        pw = bytes(rnd.randrange(1, 256) for _ in range(ln))
+        salt = "".join(rnd.choice(BC64) for _ in range(21)) + rnd.choice(".Oeu")
+        cases.append(dict(kind="bcrypt", cost=cost, salt=list(bc64dec(salt)[:16]), pw=list(pw)))
+        meta[len(cases)] = (cost, pw, salt)
+    wd = VERIF / "out" / "work" / "C11_blowfish_in"
+    wd.mkdir(parents=True, exist_ok=True)
+    (wd / "input.json").write_text(json.dumps(dict(P=[[w >> 16, w & 0xFFFF] for w in ws[:18]], S=[[w >> 16, w & 0xFFFF] for w in ws[18:]], cases=cases)))
+    r = tlc.run("MC_Blowfish", "INIT Init\nNEXT Next\n", name="C11_blowfish", workers=16, env={"TRACE_FILE": str(wd / "input.json")}, coverage=False, timeout=5000)
+    chk.add_tlc(f"MC_Blowfish: {len(cases)} Blowfish blocks / bcrypt cores evaluated by TLC from the pi tables", r)
+    outs = {e["case"]: bytes(e["out"]) for e in r.emits}
+    if len(outs) != len(cases):
+        raise tlc.MachineryError(f"MC_Blowfish decided {len(outs)} of {len(cases)}")
+    if outs[1].hex() != "4ef997456198dd78":
+        raise tlc.MachineryError("Blowfish.tla fails Schneier's all-zero test vector")
+    for i, c in enumerate(cases, 1):
+        if c["kind"] == "encipher":
+            eng = BlowfishEngine()
+            eng.expand(eng.key_to_words(bytes(c["key"])))
+            l, r_ = eng.encipher(int.from_bytes(bytes(c["block"][:4]), "big"), int.from_bytes(bytes(c["block"][4:]), "big"))
+            got = l.to_bytes(4, "big") + r_.to_bytes(4, "big")
+            chk.count(("blowfish", len(c["key"])))
+            chk.action("blowfish.encipher")
+            if got != outs[i]:
+                chk.violation("blowfish:encipher", f"BlowfishEngine encrypts {bytes(c['block']).hex()} under key {bytes(c['key']).hex()[:32]} to {got.hex()}, Blowfish gives {outs[i].hex()}", {"key": bytes(c["key"]).hex()})
+        else:
+            cost, pw, salt = meta[i]
+            want = bc64enc(outs[i])
+            ref = cbcrypt.hashpw(pw[:72], f"$2b${cost:02d}${salt}".encode()).decode()[29:]
+            if ref != want:
+                raise tlc.MachineryError(f"Blowfish.tla disagrees with the bcrypt C library for cost={cost} len={len(pw)}")
+            chk.count(("bcrypt-tlc", cost, len(pw)))
+            chk.action("bcrypt.core")
+            for ident in ("2a", "2b", "2y"):
+                got = raw_bcrypt(pw, ident, salt.encode(), cost).decode()
+                if got != want:
+                    chk.violation(f"bcrypt-core:{ident}:tlc", f"raw_bcrypt({ident}, cost={cost}, {len(pw)}-byte password) = {got}, EksBlowfish evaluated by TLC gives {want}",
+                                  {"ident": ident, "cost": cost, "password": pw.hex(), "salt": salt})
+    chk.traces += len(cases)
+
+
 def part_bcrypt(chk, quick, rnd):
     """bcrypt core: TLC does not define Blowfish; the function is bound by two independent providers"""
     from passlib.crypto._blowfish import raw_bcrypt
@@ -165,4 +263,3 @@ def part_bcrypt(chk, quick, rnd):
     for b in r.emits:
         chk.violation(f"bcrypt-core:{b['src']}-vs-{b['firstsrc']}", f"bcrypt core: {b['src']} gives {b['v']}, {b['firstsrc']} gave {b['first']} for {b['k'][:80]}", b)
     chk.traces += len(evs)
-    chk.uncovered.append("Blowfish itself is not transcribed into TLA+: the bcrypt core is decided by agreement with two independent providers (bcrypt C library, libxcrypt)")
